@@ -33,7 +33,7 @@ CATS = [None, "a", "b", "z"]
 
 def configs(tier):
     out = []
-    shapes = [(2, 1), (2, 2), (3, 1)] + ([(4, 1), (3, 2), (2, 3)] if tier == "thorough" else [])
+    shapes = [(2, 1), (2, 2), (3, 1), (4, 1)] + ([(3, 2), (2, 3), (5, 1)] if tier == "thorough" else [])      # 4+ annotators: a unitary alignment can hold 3 real units AND an empty one
     for n, k in shapes:
         out.append(dict(key=f"abstract-components,n={n},unitary={k}", kind="abstract", n=n, k=k, cost=(3 ** (n * k)) * 8, split=32))
     out.append(dict(key="real-components,n=2,unitary=1", kind="real", n=2, k=1, cost=200))
